@@ -201,7 +201,9 @@ def run(ctx):
         rnd = random.Random(ctx.seed * 104729 + 15)
         cases = [gen_case(rnd) for _ in range(ctx.pick(20000, 700000))]
     lines = [case_line(i, c) for i, c in enumerate(cases)]
-    results, crashes = fmtdrv.run_cases(ctx, "san", lines, chunk=1000)
+    # every third chunk runs with Qt's own logging variables set by the user: the filter's verdicts must depend on its rule list alone
+    ENVS = [{}, {}, {"QT_LOGGING_RULES": "*.debug=false;app.*=true;net.warning=false;*.critical=false"}]
+    results, crashes = fmtdrv.run_cases(ctx, "san", lines, chunk=1000, envs=ENVS)
     for cid, line, kind, err in crashes:
         if kind == "skipped":
             continue
@@ -229,7 +231,8 @@ def run(ctx):
                               % (text, cat, TYPES[t], exp, got),
                               {"rules": text, "qt": False, "probes": [(cat, t)]})
                 break
-            if qt and TYPES[t] != "fatal" and not qt_suffix_quirk(rules, cat):
+            # (the comparison with QLoggingCategory is meaningless where the environment overrides Qt's own registry)
+            if qt and TYPES[t] != "fatal" and not qt_suffix_quirk(rules, cat) and not ENVS[(i // 1000) % len(ENVS)]:
                 qt_pairs += 1
                 qv = tok[1] == "y"
                 if qv != exp:
